@@ -195,7 +195,11 @@ def parent(args):
     pid = args.prop
     tier = args.tier
     seed = args.seed
-    mod = load_prop(pid)
+    try:
+        mod = load_prop(pid)
+    except ImportError as e:
+        print('INCONCLUSIVE property=%s no check module (%s)' % (pid, e))
+        return 2
     os.makedirs(os.path.join(OUT, 'replay'), exist_ok=True)
     os.makedirs(os.path.join(OUT, 'shards'), exist_ok=True)
     os.makedirs(os.path.join(ROOT, 'evidence'), exist_ok=True)
